@@ -325,6 +325,9 @@ class REPL(code.InteractiveConsole):
             exc_info_override and self.locals.get("_hy_exc_info"))
         sys.excepthook(t, v, tb)
         self.locals[mangle("*e")] = v
+        # A failed input has no result: the next shift must not reuse the
+        # previous input's value.
+        self.last_value = None
 
     def showsyntaxerror(self, filename=None, source=None):
         if filename is None:
